@@ -161,7 +161,7 @@ def run(tier, seed, replay):
     cstats = collections.Counter()
     dcr = qv.workdir('c12cr')
     ccases = []
-    for k in range(10 if tier == 'quick' else 80):
+    for k in range(10 if tier == 'quick' else 40):
         cid = 'c12c_%d' % k
         gc = None
         for _ in range(20):
@@ -179,7 +179,7 @@ def run(tier, seed, replay):
         ccases.append({'cid': cid, 'g': g, 'ops': gc['ops'], 'text': text, 'kind': gc['kind'] + '-crash', 'tail': gc['tail']})
     cobs = seqrun.run_cases_text(dcr, [(c['cid'], c['text']) for c in ccases], timeout=900)
     for c in ccases:
-        for (cls, cc, desc, data) in crash.safety_finds(c, dcr, rng, 60 if tier == 'quick' else 600, cstats, max_points=(24 if tier == 'quick' else 150),
+        for (cls, cc, desc, data) in crash.safety_finds(c, dcr, rng, 60 if tier == 'quick' else 300, cstats, max_points=(24 if tier == 'quick' else 80),
                                                           verdict=('safe_sl1' if c['kind'].startswith('l1') else 'safe')):
             finds.append((cls, c, desc))
     # correspondence of the device model (whose growth theorems are Props/C12.v) with the library on growth histories
